@@ -543,3 +543,170 @@ Proof.
   - intros tag H. unfold from_chiral_tag. rewrite H. reflexivity.
   - intros tag. unfold from_chiral_tag. destruct (sign_of_tag tag); reflexivity.
 Qed.
+
+(* ================================================================================================ *)
+(* 6. whole molecules: to_rdkit_molecule then from_rdkit_molecule on the structure part *)
+Lemma mapM_total {A B} (f : A -> pyres B) : forall l, (forall x, In x l -> exists y, f x = Ok y) -> exists l', mapM f l = Ok l'.
+Proof.
+  induction l as [|x r IH]; intros H; cbn.
+  - eexists; reflexivity.
+  - destruct (H x (or_introl eq_refl)) as [y Hy]. rewrite Hy.
+    destruct IH as [ys Hys]; [intros z Hz; apply H; right; exact Hz|]. rewrite Hys. eexists; reflexivity.
+Qed.
+
+Lemma zget_In_keys {V} (d : list (Z * V)) k : In k (map fst d) -> exists v, zget d k = Some v.
+Proof.
+  induction d as [|[k' v] r IH]; intros H; [contradiction|]. cbn.
+  destruct (k =? k') eqn:E; [eexists; reflexivity|]. destruct H as [H|H]; [cbn in H; subst; rewrite Z.eqb_refl in E; discriminate | apply IH; exact H].
+Qed.
+
+Lemma to_bond_shape sym n m o b e t : to_bond sym n m o = Ok (b, e, t) ->
+  ((b, e) = (n, m) \/ (b, e) = (m, n)) /\ bond_type o = Ok t.
+Proof.
+  unfold to_bond. destruct (negb (smem sym inorganic)); destruct (bond_type o) as [t'|]; intros H; try discriminate;
+    injection H as <- <- <-; split; auto.
+Qed.
+
+(* what from_rdkit_molecule makes of the atoms to_rdkit_molecule wrote: the i-th atom gets number i + 1 (counted from the
+   start index), keeps element / isotope / charge / radical flag, has its hydrogen count increased by RDKit's implicit
+   hydrogens, the coordinates RDKit holds, and its old NUMBER as map number *)
+Definition expect_atom (keep : bool) (i : Z) (na : Z * catom) (impl : Z) (p : Z * Z) : Z * catom :=
+  (i + 1, mkC (c_num (snd na)) (c_iso (snd na)) (c_chg (snd na)) (c_rad (snd na))
+              (option_map (fun h => h + impl) (c_hyd (snd na))) (Some (if keep then fst na else 0)) (fst p) (snd p)).
+Fixpoint expect_atoms (keep : bool) (i : Z) (atoms : list (Z * catom)) (impls : list Z) (xy : list (Z * Z)) : list (Z * catom) :=
+  match atoms with
+  | [] => []
+  | na :: r => expect_atom keep i na (match impls with h :: _ => h | [] => 0 end) (match xy with p :: _ => p | [] => (czero, czero) end)
+               :: expect_atoms keep (i + 1) r (tl impls) (tl xy)
+  end.
+
+Section Molecules.
+  Variable symbol : Z -> string.
+  Hypothesis symbol_faithful : forall z e, from_symbol (symbol z) = Some e -> e_num e = z.
+
+  Definition atoms_ok (atoms : list (Z * catom)) : Prop :=
+    forall na, In na atoms -> cvalid symbol (snd na) /\ exists h, c_hyd (snd na) = Some h /\ 0 <= h.
+
+  Lemma atoms_from_to keep : forall atoms, atoms_ok atoms ->
+    exists ras, mapM (fun na => to_atom (fst na) keep (snd na)) atoms = Ok ras /\
+                forall i impls xy, from_atoms symbol i ras impls xy = Ok (expect_atoms keep i atoms impls xy).
+  Proof.
+    induction atoms as [|na r IH]; intros H.
+    - exists []. split; reflexivity.
+    - destruct (H na (or_introl eq_refl)) as (Hv & h & Hh & Hpos).
+      destruct (from_to_atom symbol symbol_faithful (fst na) keep (snd na) h Hv Hh Hpos) as (ra & Hra & Hf).
+      destruct IH as (ras & Hras & Hfrom); [intros x Hx; apply H; right; exact Hx|].
+      exists (ra :: ras). split.
+      + cbn [mapM]. rewrite Hra, Hras. reflexivity.
+      + intros i impls xy. cbn [from_atoms expect_atoms].
+        destruct (match xy with p :: _ => p | [] => (czero, czero) end) as [x y] eqn:Exy.
+        rewrite Hf, Hfrom. unfold expect_atom. rewrite Hh. reflexivity.
+  Qed.
+
+  (* the relation between a chython bond (n, m, o) and what it has become: [i], [j] are the positions of n and m in the
+     enumeration of the atoms *)
+  Definition bond_image (nums : list Z) (b : Z * Z * Z) (P : nat -> nat -> Z -> Prop) : Prop :=
+    let '(n, m, o) := b in
+    exists i j, (i < List.length nums)%nat /\ (j < List.length nums)%nat /\ nth i nums 0 = n /\ nth j nums 0 = m /\ P i j o.
+
+  Definition to_bond_idx (atoms : list (Z * catom)) (mp : list (Z * Z)) (b : Z * Z * Z) : pyres (Z * Z * string) :=
+    let '(n, m', o) := b in
+    match zget atoms n with
+    | None => Err KeyError
+    | Some a =>
+        match to_bond (chython_symbol (c_num a)) n m' o with
+        | Err e => Err e
+        | Ok (bn, en, t) =>
+            match midx mp bn, midx mp en with
+            | Ok bi, Ok ei => Ok (bi, ei, t)
+            | Err e, _ => Err e
+            | _, Err e => Err e
+            end
+        end
+    end.
+
+  Lemma bonds_to atoms : NoDup (map fst atoms) ->
+    forall bonds, (forall n m o, In (n, m, o) bonds -> In n (map fst atoms) /\ In m (map fst atoms) /\ In o supported_orders) ->
+    exists rbs, mapM (to_bond_idx atoms (index_map (map fst atoms))) bonds = Ok rbs /\
+      Forall2 (fun b rb => bond_image (map fst atoms) b (fun i j o =>
+                 let '(bi, ei, t) := rb in
+                 ((bi, ei) = (Z.of_nat i, Z.of_nat j) \/ (bi, ei) = (Z.of_nat j, Z.of_nat i)) /\ rdkit_bond_order t = Ok o)) bonds rbs.
+  Proof.
+    intros Hnd. induction bonds as [|[[n m] o] r IH]; intros H.
+    - exists []. split; [reflexivity | constructor].
+    - destruct (H n m o (or_introl eq_refl)) as (Hn & Hm & Ho).
+      destruct IH as (rbs & Hrbs & HF); [intros n' m' o' Hin; apply H; right; exact Hin|].
+      destruct (zget_In_keys atoms n Hn) as [a Ha].
+      destruct (from_to_bond (chython_symbol (c_num a)) n m o Ho) as (b & e & t & Hto & _).
+      destruct (to_bond_shape _ _ _ _ _ _ _ Hto) as [Hshape Ht].
+      destruct (proj1 bond_maps_inverse o Ho) as (t' & Ht' & Hback). rewrite Ht in Ht'. injection Ht' as <-.
+      destruct (In_nth _ _ 0 Hn) as (i & Hi & Hni). destruct (In_nth _ _ 0 Hm) as (j & Hj & Hmj).
+      pose proof (index_map_lookup _ i Hnd Hi) as Li. pose proof (index_map_lookup _ j Hnd Hj) as Lj.
+      rewrite Hni in Li. rewrite Hmj in Lj.
+      destruct Hshape as [E|E]; injection E as -> ->.
+      + exists ((Z.of_nat i, Z.of_nat j, t) :: rbs). split.
+        * cbn [mapM]. unfold to_bond_idx at 1. rewrite Ha, Hto, Li, Lj. rewrite Hrbs. reflexivity.
+        * constructor; [|exact HF]. exists i, j. repeat split; auto.
+      + exists ((Z.of_nat j, Z.of_nat i, t) :: rbs). split.
+        * cbn [mapM]. unfold to_bond_idx at 1. rewrite Ha, Hto, Li, Lj. rewrite Hrbs. reflexivity.
+        * constructor; [|exact HF]. exists i, j. repeat split; auto.
+  Qed.
+
+  Lemma bonds_from nums : forall bonds rbs,
+    Forall2 (fun b rb => bond_image nums b (fun i j o =>
+               let '(bi, ei, t) := rb in
+               ((bi, ei) = (Z.of_nat i, Z.of_nat j) \/ (bi, ei) = (Z.of_nat j, Z.of_nat i)) /\ rdkit_bond_order t = Ok o)) bonds rbs ->
+    exists bonds', mapM (fun b => let '(bi, ei, t) := b in from_bond (bi + 1) (ei + 1) t) rbs = Ok bonds' /\
+      Forall2 (fun b b' => bond_image nums b (fun i j o => same_bond b' (Z.of_nat i + 1, Z.of_nat j + 1, o) = true)) bonds bonds'.
+  Proof.
+    intros bonds rbs HF. induction HF as [|[[n m] o] [[bi ei] t] r rr Hhd _ IH].
+    - exists []. split; [reflexivity | constructor].
+    - destruct IH as (bs & Hbs & HF2). destruct Hhd as (i & j & Hi & Hj & Hn & Hm & Hshape & Hord).
+      exists ((bi + 1, ei + 1, o) :: bs). split.
+      + cbn [mapM]. rewrite Hbs. unfold from_bond. rewrite Hord. reflexivity.
+      + constructor; [|exact HF2]. exists i, j. repeat split; auto.
+        destruct Hshape as [E|E]; injection E as -> ->; cbn; rewrite !Z.eqb_refl; cbn; [reflexivity | rewrite orb_true_r; reflexivity].
+  Qed.
+
+  (* chython -> RDKit -> chython on a whole molecule (structure part): every well-formed molecule is transferred without
+     error, and what comes back is the same molecule with the atoms renumbered 1..N in enumeration order: same element,
+     isotope, charge, radical flag for every atom, hydrogens h + (RDKit's implicit hydrogens), RDKit's coordinates, the old
+     number as map number, and every bond between the renumbered ends with its order (as an undirected bond) -- in the same
+     order of bonds. *)
+  Theorem from_to_mol : forall keep atoms bonds,
+    NoDup (map fst atoms) -> atoms_ok atoms ->
+    (forall n m o, In (n, m, o) bonds -> In n (map fst atoms) /\ In m (map fst atoms) /\ In o supported_orders) ->
+    exists ras rbs, to_mol keep (atoms, bonds) = Ok (ras, rbs) /\
+      forall impls xy, exists bonds',
+        from_mol symbol impls xy (ras, rbs) = Ok (expect_atoms keep 0 atoms impls xy, bonds') /\
+        Forall2 (fun b b' => bond_image (map fst atoms) b (fun i j o => same_bond b' (Z.of_nat i + 1, Z.of_nat j + 1, o) = true)) bonds bonds'.
+  Proof.
+    intros keep atoms bonds Hnd Hok Hb.
+    destruct (atoms_from_to keep atoms Hok) as (ras & Hras & Hfrom).
+    destruct (bonds_to atoms Hnd bonds Hb) as (rbs & Hrbs & HF).
+    exists ras, rbs. split.
+    - unfold to_mol. rewrite Hras. unfold to_bond_idx in Hrbs. rewrite Hrbs. reflexivity.
+    - intros impls xy. destruct (bonds_from _ _ _ HF) as (bonds' & Hb' & HF2).
+      exists bonds'. split; [|exact HF2]. unfold from_mol. rewrite Hfrom. rewrite Hb'. reflexivity.
+  Qed.
+End Molecules.
+
+(* non-vacuity: ethanol-like C(3 H) - C(2 H) - O(1 H) numbered 7, 3, 9, bond list in chython's enumeration order, and a
+   dative bond from the oxygen to an iron atom numbered 1 that is enumerated from the iron *)
+Example from_to_mol_example :
+  let atoms := [(7, mkC 6 None 0 false (Some 3) None 0 0); (3, mkC 6 (Some 13) 0 false (Some 2) None 0 0);
+                (9, mkC 8 None 0 false (Some 1) None 0 0); (1, mkC 26 None 2 false (Some 0) None 0 0)] in
+  let bonds := [(7, 3, 1); (3, 9, 1); (1, 9, 8)] in
+  NoDup (map fst atoms) /\ atoms_ok chython_symbol atoms /\
+  (forall n m o, In (n, m, o) bonds -> In n (map fst atoms) /\ In m (map fst atoms) /\ In o supported_orders) /\
+  to_mol true (atoms, bonds) = Ok ([mkR 6 0 0 0 3 7; mkR 6 13 0 0 2 3; mkR 8 0 0 0 1 9; mkR 26 0 2 0 0 1],
+                                   [(0, 1, "SINGLE"); (1, 2, "SINGLE"); (2, 3, "DATIVE")]).
+Proof.
+  cbn zeta. split; [repeat constructor; cbn; intuition lia|]. split.
+  - intros na Hin. cbn in Hin.
+    repeat (destruct Hin as [<-|Hin]; [split; [eexists; split; [vm_compute; reflexivity|]; split;
+      [intros i Hi; first [discriminate | injection Hi as <-; split; [lia | vm_compute; reflexivity]] | cbn; lia] | eexists; split; [reflexivity | lia]]|]).
+    contradiction.
+  - split; [|vm_compute; reflexivity].
+    intros n m o Hin. cbn in Hin. repeat (destruct Hin as [Hin|Hin]; [injection Hin as <- <- <-; cbn; intuition lia|]). contradiction.
+Qed.
